@@ -11,10 +11,12 @@
 #include "assumed_C01.h"
 
 #ifdef LOG_EC_COMMIT_SECKEY
-struct { unsigned int n; int ret; secp256k1_scalar in, out; secp256k1_ge p; uint32_t s0, s7; uint64_t bytes;
+struct { unsigned int n; int ret, used, first; secp256k1_scalar in, out; secp256k1_ge p; uint32_t s0, s7; uint64_t bytes;
          const unsigned char *data; size_t size; const secp256k1_hash_ctx *hctx; const secp256k1_sha256 *sha; } g_cs;   /* one object = one assigns target */
 #define g_cs_n g_cs.n
 #define g_cs_ret g_cs.ret
+#define g_cs_used g_cs.used     /* sticky: 1 once any commitment attempt was made (harness resets it to 0 before the call under test) */
+#define g_cs_first g_cs.first   /* 1 iff the logged (last) call was the first commitment attempt */
 #define g_cs_in g_cs.in
 #define g_cs_out g_cs.out
 #define g_cs_p g_cs.p
@@ -33,6 +35,7 @@ __CPROVER_assigns(*seckey, *pubp, *sha, g_cs)
 __CPROVER_ensures(__CPROVER_return_value == 0 || __CPROVER_return_value == 1)
 __CPROVER_ensures(scalar_ok(seckey) && ge_ok(pubp))
 __CPROVER_ensures(g_cs_n == __CPROVER_old(g_cs_n) + 1 && g_cs_ret == __CPROVER_return_value && g_cs_data == data && g_cs_size == data_size && g_cs_hctx == hash_ctx && g_cs_sha == sha)
+__CPROVER_ensures(g_cs_used == 1 && g_cs_first == (__CPROVER_old(g_cs_used) == 0))
 __CPROVER_ensures(SC_EQ_OLD(g_cs_in, *seckey) && SC_EQ(g_cs_out, *seckey))
 __CPROVER_ensures(FE_EQ_OLD(g_cs_p.x, pubp->x) && FE_EQ_OLD(g_cs_p.y, pubp->y) && g_cs_p.infinity == __CPROVER_old(pubp->infinity))
 __CPROVER_ensures(g_cs_s0 == __CPROVER_old(sha->s[0]) && g_cs_s7 == __CPROVER_old(sha->s[7]) && g_cs_bytes == __CPROVER_old(sha->bytes))
